@@ -138,6 +138,22 @@ CHECKS["C13"] = dict(
     design_ref="DESIGN.md section 3 / C13",
 )
 
+CHECKS["C10"] = dict(
+    category="other",
+    text=("Clause-level, all on the type-checked MIR: (X1) trust gate - cache slots are populated in exactly one function; inside it every path to a slot "
+          "write takes either the `seed = None` edge or the success edge of a comparison of the WHOLE value returned by the MAC routine (a function of seed and "
+          "buffer prefix) with the buffer remainder; the failing edge reaches only `None`; MAC'd prefix and carving loop range over the same layer table and header "
+          "offset; (X2) every seedless call of the expander is dominated by a whole-slice zero fill with only header-confined writes in between, every other call "
+          "passes the key's own seed; (X3) the fresh buffer is shrunk to the computed length before fill/marker/expansion; (X4) the MAC is written after the tree "
+          "generation with the key's seed; (X5) cache scope typestate: a possibly attached cache reaches tree routines only with the caller's own identity, the root "
+          "tree, or key-vector element 0 (first loop iteration, detached on every path back; the key builder detaches before pushing a second level; the "
+          "bottom-level signer's key comes from that builder with the same cache variable); (X6) panic-freedom engine on every function touching the buffer or the "
+          "cache, aux bytes and length unknown. NOT decided: that cached nodes equal recomputed nodes (output equality)."),
+    note="Necessary conditions of transparency plus the authentication gate. Trusts ct_eq / slice equality comparing whole equal-length slices and slice::fill.",
+    technique="who-may-construct enumeration, guard facts with edge removal, whole-value provenance, dominance, attached/detached typestate dataflow, panic-freedom engine (abstract interpretation)",
+    design_ref="DESIGN.md section 3 / C10",
+)
+
 NOT_APPLICABLE = {
     "C01": ("Round-trip completeness (sign then verify succeeds) is equality of two computations over runtime values "
             "(message, seed, counter, 6x4x5^L parameter shapes); no dataflow/typestate fact bounds it. Its structural "
